@@ -4,6 +4,11 @@ import GrmVerif.Lemmas.LRComplete
 import GrmVerif.Lemmas.RecEdited
 import GrmVerif.Lemmas.RecEditedEx
 import GrmVerif.Lemmas.LeafIdx
+import GrmVerif.Lemmas.KeptShift
+import GrmVerif.Lemmas.KeptRun
+import GrmVerif.Lemmas.KeptCert
+import GrmVerif.Lemmas.KeptCertEx
+import GrmVerif.Lemmas.KeptCols
 /-!
 # C05 — every reported repair sequence repairs; parsing continues as if it were applied
 
@@ -19,15 +24,40 @@ One sequence at one error: applying a sequence is feeding the tokens of the edit
 accepts (`validSeq_runs`), which is exactly the premise `RecovererOK` of C07.
 
 Whole input, any number of errors, about the recovering driver `Rec.recRun` with any recoverer that
-continues as if the first sequence it reports had been applied (`FirstApplies`):
-`recRun_is_edited_run_keeping_reductions` (unconditional: the run is the run over the edited input in
-which each refused lexeme is first offered to the table, the reductions made under it being kept),
-and, when those kept reductions cannot be observed (`KeptInvisible`),
-`recRun_is_plain_parse_of_edited_input`, `reported_errors_are_plain_errors_of_edited_input`,
-`unrepaired_error_is_first_error_of_edited_input`, `returned_tree_spells_edited_input`.
+continues as if the first sequence it reports had been applied (`FirstApplies`), in three tiers:
+
+1. `recRun_is_edited_run_keeping_reductions` — unconditional: the run is the run over the edited
+   input in which each refused lexeme is first offered to the table, the reductions made under it
+   being kept (tables with or without conflicts).
+2. **THE STRONGEST STATEMENTS — no undecidable hypothesis about the table:**
+   `recRun_is_plain_parse_of_edited_input_certified`,
+   `reported_errors_are_plain_errors_of_edited_input_certified`,
+   `unrepaired_error_is_first_error_of_edited_input_certified`,
+   `returned_tree_spells_edited_input_certified`: for EVERY table that passes the decidable
+   certificates the driver evaluates on every dumped automaton (`wholeRunCert` = `Cert.check`,
+   `Cert.checkLA`, `Cert.vpClosed`, `colsOk`) and every recoverer whose first sequence
+   applies (`FirstApplies`) and repairs (`FirstValid`: `validSeq … N`, `N ≥ 1` — what the driver
+   validates per reported sequence), the recovering run IS the plain parse of the edited input.
+   They are instances of the theorems with the plain names
+   (`recRun_is_plain_parse_of_edited_input`, …), which assume `KeptShiftInvisible G A` (whatever the
+   stack with the kept reductions shifts or accepts, the stack without them shifts to the same stack
+   or accepts), through `certified_table_keeps_shifts_invisible`
+   (`kept_reductions_invisible_to_shifted_tokens` with the certificates spelled out): every certified
+   conflict-free table — merged (Pager, LALR-like, detecting errors late) or canonical — satisfies it.
+3. `…_of_keptInvisible` — the earlier form, under `KeptInvisible G A` (additionally: what the reduced
+   stack refuses the unreduced one refuses). It needs neither `FirstValid` nor the certificates, but
+   `KeptInvisible` is FALSE of merged tables that detect errors late (`ex2_not_keptInvisible`: the
+   LALR table of a 7-production grammar), so it covers canonical-like tables only.
+
+The plain parse of the edited input is stated without the model's fuel constant: the unreduced stack
+has to redo the kept reductions before it shifts, so at the constant `FUEL` of `feed` it can run out
+where the recovering run did not. `FeedsTo`/`AcceptsAt`/`RefusesAt` (`Lemmas/KeptShift.lean`) say "for
+some fuel" (an answer other than out-of-fuel is the answer for every larger fuel, `C07.feed_ge`), and
+`PlainIs G A b toks r` says: `plainFromF … ff … = r` for every large enough `ff`, and
+`plainFrom … = r` at `FUEL` unless `plainFrom … = other` (out of fuel) there.
 -/
 namespace GrmVerif.C05
-open GrmVerif Rec LR Cert
+open GrmVerif Rec LR Cert Term
 
 /-- **Applying a repair sequence = parsing the edited input.** If the sequence applies from
 `c`, the resulting configuration is the one reached by feeding, in order, the tokens of the edited
@@ -197,6 +227,326 @@ theorem recRun_is_edited_run_keeping_reductions (G : Grammar) (A : Automaton) (w
         ∃ s, runSteps G A c.stack (editedSteps G w e.pos c.pos pre ++ [.offer (nextTok G w e.pos)]) = some s) :=
   recRun_own G A w recover hfirst (eofOk_spec heof).1 (eofOk_spec heof).2 hw fuel c errs v errs' hc h
 
+
+/-! ### from acceptance by the stack automaton to the tree -/
+
+/-- **Acceptance by the plain stack automaton is acceptance by the LR driver with trees, and the tree
+spells the tokens.** On a table that passes `Cert.check`, if the stack automaton started on
+`[A.start]` shifts every token of `toks` (`FeedsTo`, any fuel) and then accepts under end-of-input,
+and `toks` consists of tokens of the grammar other than end-of-input, then `LR.parse` (the model of
+`Parser::lr` of C01) accepts `toks` and returns a valid tree rooted at the start rule whose yield is
+`toks` and whose `k`-th leaf carries lexeme index `k`. -/
+theorem plain_acceptance_is_a_tree (G : Grammar) (A : Automaton) (hcert : check G A = true)
+    (toks : List Nat) (hin : InputOk G toks) (st : List Nat)
+    (hf : FeedsTo G A [A.start] toks st) (hacc : AcceptsAt G A G.eof st) :
+    ∃ fuel' t, LR.parse G A toks fuel' = .accept t ∧
+      Tree.valid G t = true ∧ (∃ S, G.rhs G.startProd = [.rule S] ∧ Tree.root G t = .rule S) ∧
+      Tree.yield t = toks ∧ Tree.leafIdxs t = List.range toks.length := by
+  obtain ⟨fa, x, hx⟩ := hacc
+  -- the tokens are shifted by the driver with trees …
+  obtain ⟨a1, hs1⟩ := feedsTo_steps G A toks toks 0 [A.start] st [] (Nat.zero_le _) (by simp) hf
+  -- … and at the end of the input it reduces and stops
+  have hend : nextTok G toks toks.length = G.eof := by simp [nextTok]
+  rw [← hend] at hx
+  obtain ⟨a2, hs2, st0, tl, hx0, hact⟩ := feed_accept_steps G A toks fa st x a1 toks.length hx
+  have hsteps := hs1.trans hs2
+  have hdone : ∃ o, step G A toks ⟨x, a2, toks.length⟩ = .done o := by
+    subst hx0
+    simp only [step, hact]
+    cases a2.getLast? with
+    | none => exact ⟨_, rfl⟩
+    | some tr => cases tr <;> exact ⟨_, rfl⟩
+  obtain ⟨o, hdo⟩ := hdone
+  obtain ⟨fuel', hrun⟩ := run_of_steps hsteps hdo
+  have hparse : parse G A toks fuel' = o := hrun
+  -- the outcome is an accept: a certified table never crashes
+  have hacc : ∃ t, o = .accept t := by
+    subst hx0
+    simp only [step, hact] at hdo
+    cases hl : a2.getLast? with
+    | none =>
+      rw [hl] at hdo; simp only [Step.done.injEq] at hdo
+      exact absurd (hdo ▸ hparse) (C01.lr_no_crash G A hcert toks hin fuel' 3)
+    | some tr =>
+      rw [hl] at hdo
+      cases tr with
+      | leaf a b =>
+        simp only [Step.done.injEq] at hdo
+        exact absurd (hdo ▸ hparse) (C01.lr_no_crash G A hcert toks hin fuel' 3)
+      | node p kids =>
+        simp only [Step.done.injEq] at hdo
+        exact ⟨_, hdo.symm⟩
+  obtain ⟨t, ht⟩ := hacc
+  subst ht
+  have hidx := accept_leafIdxs (check_props G A hcert) hin hsteps t hdo
+  obtain ⟨hv, hr, hy⟩ := C01.lr_sound G A hcert toks hin fuel' t hparse
+  exact ⟨fuel', t, hparse, hv, hr, hy, hidx⟩
+
+/-! ### certified tables: kept reductions are invisible to what is shifted or accepted -/
+
+/-- **On every certified conflict-free table the reductions kept under refused lexemes cannot be
+observed by a token that is shifted or accepted afterwards** (`KeptShiftInvisible`). Hypotheses, all
+decidable and evaluated by the driver on every dumped automaton: `Cert.check` (K1–K6), `Cert.checkLA`
+(L1–L4, w.r.t. the reference nullable/FIRST sets, exact by C17), `Cert.vpClosed` (closed sets hold
+only closure items of their kernels), `colsOk` (no action cell beyond the grammar's tokens).
+Conclusion: let `b` be a stack that is a path of the automaton and `a` the stack left after offering
+any number of refused lexemes to it (`Kept a b`: the table made the reductions it prescribes under
+each and then refused it). For every token `t`: if `a` shifts `t` (at `FUEL`) to the stack `x`, then
+`b` shifts `t` to the same `x` (for some fuel, hence every larger one); if `a` accepts under `t`, so
+does `b`. Reason: a lookahead the reduced stack goes on with is LR(1)-valid for each kept reduction
+(`validNext_of_feed`, `validNext_pull`), the certified lookahead sets contain every valid lookahead
+(`lv_lower`), and L4 makes the cell of a complete item with that lookahead that very reduction
+(`feed_reduce_same`); merged tables included — only lower bounds on lookahead sets are used. -/
+theorem kept_reductions_invisible_to_shifted_tokens (G : Grammar) (A : Automaton)
+    (hc : check G A = true) (An : Ref.Analyses) (hAn : Ref.analyses G = some An)
+    (hla : checkLA G A (An.nullable.contains ·) (An.first.contains ·) = true)
+    (hvp : vpClosed G A = true) (hcols : colsOk G A = true) : KeptShiftInvisible G A := by
+  have P := check_props G A hc
+  obtain ⟨hn, hf, _⟩ := C17.analyses_exact G P.wf An hAn
+  refine keptShiftInvisible_of_cert hc hla ?_ ?_ hvp hcols
+  · intro r; simpa using hn r
+  · intro r t; simpa using hf r t
+
+/-- **The certificates as one decidable predicate.** `wholeRunCert G A = true` — the conjunction of
+`Cert.check`, `Cert.vpClosed`, `colsOk` and `Cert.checkLA` w.r.t. `Ref.analyses G` — gives everything
+the whole-run theorems need of the table: the certificate, the column bound, and
+`KeptShiftInvisible`. -/
+theorem certified_table_keeps_shifts_invisible (G : Grammar) (A : Automaton)
+    (h : wholeRunCert G A = true) :
+    check G A = true ∧ colsOk G A = true ∧ KeptShiftInvisible G A := by
+  obtain ⟨hc, hvp, hcols, An, hAn, hla⟩ := wholeRunCert_unpack h
+  exact ⟨hc, hcols, kept_reductions_invisible_to_shifted_tokens G A hc An hAn hla hvp hcols⟩
+
+/-- **A certified table keeps the end-of-input discipline**: `Cert.check` and `colsOk` imply the
+decidable `eofOk` conditions (end-of-input is never shifted, Accept is entered only under it), so
+`eofOk` is not asked for separately below. -/
+theorem certified_table_keeps_eof_discipline (G : Grammar) (A : Automaton)
+    (hcert : check G A = true) (hcols : colsOk G A = true) :
+    RankImpl.EofNeverShifted G A ∧ AcceptOnlyAtEof G A :=
+  eof_discipline_of_cert (check_props G A hcert) hcols
+
+/-- **`colsOk` holds of every automaton dump the driver reads**: the wire format carries exactly
+`ntoks` action cells per state, so for dumped automata `colsOk` is not an assumption. -/
+theorem dumped_automaton_has_colsOk (G : Grammar) (l : List Nat) (A : Automaton) (r : List Nat)
+    (h : parseAutomaton G l = some (A, r)) : colsOk G A = true :=
+  parseAutomaton_colsOk G l A r h
+
+/-- the earlier hypothesis implies the new one: `KeptInvisible`'s first two clauses at `FUEL` are
+`KeptShiftInvisible`'s for that fuel -/
+theorem keptInvisible_implies_keptShiftInvisible (G : Grammar) (A : Automaton) (hk : KeptInvisible G A) :
+    KeptShiftInvisible G A := by
+  intro a b hab _ t
+  obtain ⟨h1, h2, _⟩ := hk a b hab t
+  exact ⟨fun x hx => ⟨FUEL, h1 x hx⟩, fun x hx => by obtain ⟨y, hy⟩ := h2 x hx; exact ⟨FUEL, y, hy⟩⟩
+
+/-! ### the whole run under `KeptShiftInvisible` and `FirstValid`
+
+Hypotheses common to the four theorems: the table passes `Cert.check` and `colsOk` (so that stacks
+stay paths of the automaton, and the end-of-input discipline holds); `KeptShiftInvisible G A`; the recoverer continues from where
+its first sequence leads (`FirstApplies`) and that sequence repairs (`FirstValid … N` with `N ≥ 1`);
+the input does not contain the end-of-input token; the run starts within the input on a stack that is
+a path of the automaton (`IsPath`; `[A.start]` is one). `FirstValid` replaces the third clause of
+`KeptInvisible`: after a valid sequence the plain parse shifts a lexeme or accepts, so a refused
+lexeme is only ever met on a stack without kept reductions. -/
+
+/-- **A value means the plain parse of the edited input accepts.** Under the hypotheses above, for
+every fuel, start configuration and result with a value: the plain stack automaton started from
+`c.stack` shifts every token of `editedToks` (first sequence of every reported error applied) and
+then accepts under end-of-input; as a function: `plainFromF … = accepted` for every large enough
+fuel of `feed`, and `plainFrom … = accepted` at the model's `FUEL` unless it runs out of fuel there
+(`PlainIs`). -/
+theorem recRun_is_plain_parse_of_edited_input (G : Grammar) (A : Automaton) (w : List Nat)
+    (recover : Pos → Option (Pos × List (List Repair)))
+    (hcert : check G A = true) (hcols : colsOk G A = true) (hk : KeptShiftInvisible G A)
+    (hfirst : FirstApplies G A w recover) (N : Nat) (hN : 1 ≤ N) (hvalid : FirstValid G A w N recover)
+    (hw : G.eof ∉ w)
+    (fuel : Nat) (c : Pos) (errs errs' : List Err) (hc : c.pos ≤ w.length) (hp : IsPath A c.stack)
+    (h : recRun G A w recover fuel c errs = (true, errs')) :
+    ∃ new, errs' = errs ++ new ∧
+      (∃ st, FeedsTo G A c.stack (editedToks w w.length c.pos new) st ∧ AcceptsAt G A G.eof st) ∧
+      PlainIs G A c.stack (editedToks w w.length c.pos new) .accepted := by
+  obtain ⟨hsh, hacc⟩ := certified_table_keeps_eof_discipline G A hcert hcols
+  obtain ⟨new, h1, _, h3, _⟩ := recRun_plainK G A w recover (check_props G A hcert) hcols hfirst hN hvalid
+    hsh hacc hw hk fuel c errs true errs' c.stack hc (.refl _) hp (Or.inl rfl) h
+  obtain ⟨st, hf, hx⟩ := h3 rfl
+  exact ⟨new, h1, ⟨st, hf, hx⟩, plainIs_of_large (plainFromF_accepted _ _ st 0 hf hx)⟩
+
+/-- **Later errors are exactly those of parsing the input with the first sequence of each earlier
+error applied.** Same hypotheses, any result (value or not). For every reported error `e`, with `pre`
+the errors reported before it: `e` lies within the input at or after the start; the input edited by
+`pre` is the edited input up to `e`'s position followed by the untouched real lexemes from `e.pos` on;
+and the plain parse of that edited input shifts everything before that point and REFUSES the token
+there (the real lexeme `e.pos`, or the end of input if `e.pos = |w|`): its first error is exactly at
+the reported position (`PlainIs … (refusedAt …)`). -/
+theorem reported_errors_are_plain_errors_of_edited_input (G : Grammar) (A : Automaton) (w : List Nat)
+    (recover : Pos → Option (Pos × List (List Repair)))
+    (hcert : check G A = true) (hcols : colsOk G A = true) (hk : KeptShiftInvisible G A)
+    (hfirst : FirstApplies G A w recover) (N : Nat) (hN : 1 ≤ N) (hvalid : FirstValid G A w N recover)
+    (hw : G.eof ∉ w)
+    (fuel : Nat) (c : Pos) (errs : List Err) (v : Bool) (errs' : List Err) (hc : c.pos ≤ w.length)
+    (hp : IsPath A c.stack) (h : recRun G A w recover fuel c errs = (v, errs')) :
+    ∃ new, errs' = errs ++ new ∧ Ordered w.length c.pos new ∧ ∀ pre e post, new = pre ++ e :: post →
+      c.pos ≤ e.pos ∧ e.pos ≤ w.length ∧
+      editedItems w.length c.pos pre = editedItems e.pos c.pos pre ++ reals e.pos w.length ∧
+      (∃ st, FeedsTo G A c.stack (editedToks w e.pos c.pos pre) st ∧
+        RefusesAt G A (nextTok G w e.pos) st) ∧
+      PlainIs G A c.stack (editedToks w w.length c.pos pre)
+        (.refusedAt (editedToks w e.pos c.pos pre).length) := by
+  obtain ⟨hsh, hacc⟩ := certified_table_keeps_eof_discipline G A hcert hcols
+  obtain ⟨new, h1, h2, _, h4⟩ := recRun_plainK G A w recover (check_props G A hcert) hcols hfirst hN hvalid
+    hsh hacc hw hk fuel c errs v errs' c.stack hc (.refl _) hp (Or.inl rfl) h
+  refine ⟨new, h1, h2, ?_⟩
+  intro pre e post hs
+  subst hs
+  obtain ⟨ho, hle⟩ := ordered_split h2
+  obtain ⟨st, hf, hy⟩ := h4 pre e post rfl
+  have hsplit := editedItems_split hle ho
+  refine ⟨ordered_le ho, hle, hsplit, ⟨st, hf, hy⟩, plainIs_of_large ?_⟩
+  have := plainFromF_refused (G := G) (A := A) w _ c.stack st e.pos 0 hf hy
+  simp only [editedToks, hsplit, List.map_append] at this ⊢
+  simpa using this
+
+/-- **A run that gives up stops where the plain parse of the edited input has its first error.** Same
+hypotheses. If the last reported error `e` has no repair sequence (the run ended without a value
+there), the edited input is the input edited by the earlier errors `pre` only, and its plain parse
+shifts every token before `e`'s position and refuses the one there. -/
+theorem unrepaired_error_is_first_error_of_edited_input (G : Grammar) (A : Automaton) (w : List Nat)
+    (recover : Pos → Option (Pos × List (List Repair)))
+    (hcert : check G A = true) (hcols : colsOk G A = true) (hk : KeptShiftInvisible G A)
+    (hfirst : FirstApplies G A w recover) (N : Nat) (hN : 1 ≤ N) (hvalid : FirstValid G A w N recover)
+    (hw : G.eof ∉ w)
+    (fuel : Nat) (c : Pos) (errs : List Err) (v : Bool) (errs' : List Err) (hc : c.pos ≤ w.length)
+    (hp : IsPath A c.stack) (h : recRun G A w recover fuel c errs = (v, errs')) :
+    ∃ new, errs' = errs ++ new ∧ ∀ pre e, new = pre ++ [e] → e.repairs = [] →
+      editedItems w.length c.pos new = editedItems w.length c.pos pre ∧
+      PlainIs G A c.stack (editedToks w w.length c.pos new)
+        (.refusedAt (editedToks w e.pos c.pos pre).length) := by
+  obtain ⟨new, h1, h2, h3⟩ := reported_errors_are_plain_errors_of_edited_input G A w recover hcert hcols hk
+    hfirst N hN hvalid hw fuel c errs v errs' hc hp h
+  refine ⟨new, h1, ?_⟩
+  intro pre e hs he
+  subst hs
+  have hun := editedItems_unrepaired he h2
+  refine ⟨hun, ?_⟩
+  obtain ⟨_, _, _, _, hpl⟩ := h3 pre e [] rfl
+  simp only [editedToks, hun] at hpl ⊢
+  exact hpl
+
+/-- **A returned tree's leaves spell the repaired input.** Same hypotheses, for a run from the start
+configuration that produced a value, when the edited input consists of real tokens (`InputOk`:
+inserted tokens are tokens of the grammar other than end-of-input — the recoverer never inserts that
+one). Then the plain LR driver WITH TREES (`LR.parse`, the model of `Parser::lr` of C01) accepts the
+edited token list, and the tree it returns is a valid derivation from the start rule whose leaves,
+left to right, are exactly the edited token list — the real lexemes kept, the inserted tokens where
+`editedItems` places them (before the next real lexeme), the deleted lexemes gone. The `k`-th leaf
+carries the lexeme index `k`: it stands for the `k`-th item of `editedItems`, i.e. a real lexeme
+`EItem.real i` or a token inserted before real lexeme `b`, `EItem.ins t b` (which the real parser shows
+as a zero-length faulty lexeme at `b`'s start). -/
+theorem returned_tree_spells_edited_input (G : Grammar) (A : Automaton) (w : List Nat)
+    (recover : Pos → Option (Pos × List (List Repair)))
+    (hcert : check G A = true) (hcols : colsOk G A = true) (hk : KeptShiftInvisible G A)
+    (hfirst : FirstApplies G A w recover) (N : Nat) (hN : 1 ≤ N) (hvalid : FirstValid G A w N recover)
+    (hw : G.eof ∉ w)
+    (fuel : Nat) (errs : List Err)
+    (h : recRun G A w recover fuel ⟨[A.start], 0⟩ [] = (true, errs))
+    (hin : InputOk G (editedToks w w.length 0 errs)) :
+    ∃ fuel' t, LR.parse G A (editedToks w w.length 0 errs) fuel' = .accept t ∧
+      Tree.valid G t = true ∧ (∃ S, G.rhs G.startProd = [.rule S] ∧ Tree.root G t = .rule S) ∧
+      Tree.yield t = editedToks w w.length 0 errs ∧
+      Tree.leafIdxs t = List.range (editedItems w.length 0 errs).length := by
+  obtain ⟨new, h1, ⟨st, hf, hx⟩, _⟩ := recRun_is_plain_parse_of_edited_input G A w recover hcert hcols hk
+    hfirst N hN hvalid hw fuel ⟨[A.start], 0⟩ [] errs (Nat.zero_le _) (IsPath.start A) h
+  simp only [List.nil_append] at h1
+  subst h1
+  simp only at hf
+  obtain ⟨fuel', t, hparse, hv, hr, hy, hidx⟩ := plain_acceptance_is_a_tree G A hcert _ hin st hf hx
+  refine ⟨fuel', t, hparse, hv, hr, hy, ?_⟩
+  rw [hidx]; simp [editedToks]
+
+/-! ### the same for certified tables: no undecidable hypothesis about the table is left -/
+
+/-- **On every certified table, a value means the plain parse of the edited input accepts.**
+`recRun_is_plain_parse_of_edited_input` with `wholeRunCert G A = true` (all decidable: `Cert.check`,
+`Cert.checkLA`, `Cert.vpClosed`, `colsOk`; evaluated by the driver on every dumped automaton)
+in place of `KeptShiftInvisible`; remaining hypotheses: `FirstApplies` and `FirstValid` of the
+recoverer, an input without the end-of-input token, a start on a path stack within the input. -/
+theorem recRun_is_plain_parse_of_edited_input_certified (G : Grammar) (A : Automaton) (w : List Nat)
+    (recover : Pos → Option (Pos × List (List Repair)))
+    (hcert : wholeRunCert G A = true)
+    (hfirst : FirstApplies G A w recover) (N : Nat) (hN : 1 ≤ N) (hvalid : FirstValid G A w N recover)
+    (hw : G.eof ∉ w)
+    (fuel : Nat) (c : Pos) (errs errs' : List Err) (hc : c.pos ≤ w.length) (hp : IsPath A c.stack)
+    (h : recRun G A w recover fuel c errs = (true, errs')) :
+    ∃ new, errs' = errs ++ new ∧
+      (∃ st, FeedsTo G A c.stack (editedToks w w.length c.pos new) st ∧ AcceptsAt G A G.eof st) ∧
+      PlainIs G A c.stack (editedToks w w.length c.pos new) .accepted := by
+  obtain ⟨h1, h2, h4⟩ := certified_table_keeps_shifts_invisible G A hcert
+  exact recRun_is_plain_parse_of_edited_input G A w recover h1 h2 h4 hfirst N hN hvalid hw fuel c errs errs' hc hp h
+
+/-- **On every certified table, later errors are exactly those of parsing the input with the first
+sequence of each earlier error applied.** `reported_errors_are_plain_errors_of_edited_input` with
+`wholeRunCert G A = true` in place of `KeptShiftInvisible`. -/
+theorem reported_errors_are_plain_errors_of_edited_input_certified (G : Grammar) (A : Automaton) (w : List Nat)
+    (recover : Pos → Option (Pos × List (List Repair)))
+    (hcert : wholeRunCert G A = true)
+    (hfirst : FirstApplies G A w recover) (N : Nat) (hN : 1 ≤ N) (hvalid : FirstValid G A w N recover)
+    (hw : G.eof ∉ w)
+    (fuel : Nat) (c : Pos) (errs : List Err) (v : Bool) (errs' : List Err) (hc : c.pos ≤ w.length)
+    (hp : IsPath A c.stack) (h : recRun G A w recover fuel c errs = (v, errs')) :
+    ∃ new, errs' = errs ++ new ∧ Ordered w.length c.pos new ∧ ∀ pre e post, new = pre ++ e :: post →
+      c.pos ≤ e.pos ∧ e.pos ≤ w.length ∧
+      editedItems w.length c.pos pre = editedItems e.pos c.pos pre ++ reals e.pos w.length ∧
+      (∃ st, FeedsTo G A c.stack (editedToks w e.pos c.pos pre) st ∧
+        RefusesAt G A (nextTok G w e.pos) st) ∧
+      PlainIs G A c.stack (editedToks w w.length c.pos pre)
+        (.refusedAt (editedToks w e.pos c.pos pre).length) := by
+  obtain ⟨h1, h2, h4⟩ := certified_table_keeps_shifts_invisible G A hcert
+  exact reported_errors_are_plain_errors_of_edited_input G A w recover h1 h2 h4 hfirst N hN hvalid hw fuel c errs v
+    errs' hc hp h
+
+/-- **On every certified table, a run that gives up stops where the plain parse of the edited input
+has its first error.** `unrepaired_error_is_first_error_of_edited_input` with `wholeRunCert G A = true`
+in place of `KeptShiftInvisible`. -/
+theorem unrepaired_error_is_first_error_of_edited_input_certified (G : Grammar) (A : Automaton) (w : List Nat)
+    (recover : Pos → Option (Pos × List (List Repair)))
+    (hcert : wholeRunCert G A = true)
+    (hfirst : FirstApplies G A w recover) (N : Nat) (hN : 1 ≤ N) (hvalid : FirstValid G A w N recover)
+    (hw : G.eof ∉ w)
+    (fuel : Nat) (c : Pos) (errs : List Err) (v : Bool) (errs' : List Err) (hc : c.pos ≤ w.length)
+    (hp : IsPath A c.stack) (h : recRun G A w recover fuel c errs = (v, errs')) :
+    ∃ new, errs' = errs ++ new ∧ ∀ pre e, new = pre ++ [e] → e.repairs = [] →
+      editedItems w.length c.pos new = editedItems w.length c.pos pre ∧
+      PlainIs G A c.stack (editedToks w w.length c.pos new)
+        (.refusedAt (editedToks w e.pos c.pos pre).length) := by
+  obtain ⟨h1, h2, h4⟩ := certified_table_keeps_shifts_invisible G A hcert
+  exact unrepaired_error_is_first_error_of_edited_input G A w recover h1 h2 h4 hfirst N hN hvalid hw fuel c errs v
+    errs' hc hp h
+
+/-- **On every certified table, a returned tree's leaves spell the repaired input.**
+`returned_tree_spells_edited_input` with `wholeRunCert G A = true` in place of `KeptShiftInvisible`:
+the hypotheses are the decidable certificates of the table, `FirstApplies` and `FirstValid` of the
+recoverer, an input without the end-of-input token and an edited input made of real tokens. -/
+theorem returned_tree_spells_edited_input_certified (G : Grammar) (A : Automaton) (w : List Nat)
+    (recover : Pos → Option (Pos × List (List Repair)))
+    (hcert : wholeRunCert G A = true)
+    (hfirst : FirstApplies G A w recover) (N : Nat) (hN : 1 ≤ N) (hvalid : FirstValid G A w N recover)
+    (hw : G.eof ∉ w)
+    (fuel : Nat) (errs : List Err)
+    (h : recRun G A w recover fuel ⟨[A.start], 0⟩ [] = (true, errs))
+    (hin : InputOk G (editedToks w w.length 0 errs)) :
+    ∃ fuel' t, LR.parse G A (editedToks w w.length 0 errs) fuel' = .accept t ∧
+      Tree.valid G t = true ∧ (∃ S, G.rhs G.startProd = [.rule S] ∧ Tree.root G t = .rule S) ∧
+      Tree.yield t = editedToks w w.length 0 errs ∧
+      Tree.leafIdxs t = List.range (editedItems w.length 0 errs).length := by
+  obtain ⟨h1, h2, h4⟩ := certified_table_keeps_shifts_invisible G A hcert
+  exact returned_tree_spells_edited_input G A w recover h1 h2 h4 hfirst N hN hvalid hw fuel errs h hin
+
+/-! ### the earlier form, under `KeptInvisible` (tables that never shift what the reduced stack refuses)
+
+Kept because it needs neither the certificates nor `FirstValid` and gives the conclusions at the
+model's `FUEL` directly; `KeptInvisible` is not decidable and FALSE of merged tables that detect errors
+late (`ex2_not_keptInvisible`). -/
+
 /-- **A value means the plain parse of the edited input accepts** (second sentence of C05, value
 part, on state stacks). Hypotheses: `FirstApplies`, the end-of-input discipline, and
 `KeptInvisible G A` — the reductions made under a refused lexeme cannot be observed by any token fed
@@ -209,7 +559,7 @@ Conclusion, for every fuel, start configuration and result with a value: feeding
 list (`editedToks`: first sequence of every reported error applied) to the plain stack automaton
 from `c.stack` shifts every token, and the end-of-input token is then accepted; as one function:
 `plainFrom … = accepted`. -/
-theorem recRun_is_plain_parse_of_edited_input (G : Grammar) (A : Automaton) (w : List Nat)
+theorem recRun_is_plain_parse_of_edited_input_of_keptInvisible (G : Grammar) (A : Automaton) (w : List Nat)
     (recover : Pos → Option (Pos × List (List Repair)))
     (hfirst : FirstApplies G A w recover) (heof : eofOk G A = true) (hw : G.eof ∉ w)
     (hk : KeptInvisible G A)
@@ -224,13 +574,13 @@ theorem recRun_is_plain_parse_of_edited_input (G : Grammar) (A : Automaton) (w :
   exact ⟨new, h1, ⟨st, x, hf, hx⟩, plainFrom_accepted G A _ _ st x 0 hf hx⟩
 
 /-- **Later errors are exactly those of parsing the input with the first sequence of each earlier
-error applied.** Same hypotheses as `recRun_is_plain_parse_of_edited_input`, any result (value or
+error applied.** Same hypotheses as `recRun_is_plain_parse_of_edited_input_of_keptInvisible`, any result (value or
 not). For every reported error `e`, with `pre` the errors reported before it: `e` lies within the
 input at or after the start; the input edited by `pre` is the edited input up to `e`'s position
 followed by the untouched real lexemes from `e.pos` on; and the plain parse of that edited input
 shifts everything before that point and REFUSES the token there (the real lexeme `e.pos`, or the end
 of input if `e.pos = |w|`): its first error is exactly at the reported position. -/
-theorem reported_errors_are_plain_errors_of_edited_input (G : Grammar) (A : Automaton) (w : List Nat)
+theorem reported_errors_are_plain_errors_of_edited_input_of_keptInvisible (G : Grammar) (A : Automaton) (w : List Nat)
     (recover : Pos → Option (Pos × List (List Repair)))
     (hfirst : FirstApplies G A w recover) (heof : eofOk G A = true) (hw : G.eof ∉ w)
     (hk : KeptInvisible G A)
@@ -259,7 +609,7 @@ theorem reported_errors_are_plain_errors_of_edited_input (G : Grammar) (A : Auto
 hypotheses. If the last reported error `e` has no repair sequence (the run ended without a value
 there), the edited input is the input edited by the earlier errors `pre` only, and its plain parse
 shifts every token before `e`'s position and refuses the one there. -/
-theorem unrepaired_error_is_first_error_of_edited_input (G : Grammar) (A : Automaton) (w : List Nat)
+theorem unrepaired_error_is_first_error_of_edited_input_of_keptInvisible (G : Grammar) (A : Automaton) (w : List Nat)
     (recover : Pos → Option (Pos × List (List Repair)))
     (hfirst : FirstApplies G A w recover) (heof : eofOk G A = true) (hw : G.eof ∉ w)
     (hk : KeptInvisible G A)
@@ -270,7 +620,7 @@ theorem unrepaired_error_is_first_error_of_edited_input (G : Grammar) (A : Autom
       plainFrom G A c.stack (editedToks w w.length c.pos new) 0 =
         .refusedAt (editedToks w e.pos c.pos pre).length := by
   obtain ⟨new, h1, h2, _, _⟩ := recRun_plain G A w recover hfirst heof hw hk fuel c errs v errs' hc h
-  obtain ⟨new', h1', h3⟩ := reported_errors_are_plain_errors_of_edited_input G A w recover hfirst heof hw hk
+  obtain ⟨new', h1', h3⟩ := reported_errors_are_plain_errors_of_edited_input_of_keptInvisible G A w recover hfirst heof hw hk
     fuel c errs v errs' hc h
   have hn : new' = new := List.append_cancel_left (h1'.symm.trans h1)
   subst hn
@@ -293,7 +643,7 @@ list — the real lexemes kept, the inserted tokens where `editedItems` places t
 real lexeme), the deleted lexemes gone. The `k`-th leaf carries the lexeme index `k`: it stands for
 the `k`-th item of `editedItems`, i.e. a real lexeme `EItem.real i` or a token inserted before real
 lexeme `b`, `EItem.ins t b` (which the real parser shows as a zero-length faulty lexeme at `b`'s start). -/
-theorem returned_tree_spells_edited_input (G : Grammar) (A : Automaton) (w : List Nat)
+theorem returned_tree_spells_edited_input_of_keptInvisible (G : Grammar) (A : Automaton) (w : List Nat)
     (recover : Pos → Option (Pos × List (List Repair)))
     (hfirst : FirstApplies G A w recover) (heof : eofOk G A = true) (hw : G.eof ∉ w)
     (hk : KeptInvisible G A) (hcert : check G A = true)
@@ -304,7 +654,7 @@ theorem returned_tree_spells_edited_input (G : Grammar) (A : Automaton) (w : Lis
       Tree.valid G t = true ∧ (∃ S, G.rhs G.startProd = [.rule S] ∧ Tree.root G t = .rule S) ∧
       Tree.yield t = editedToks w w.length 0 errs ∧
       Tree.leafIdxs t = List.range (editedItems w.length 0 errs).length := by
-  obtain ⟨new, h1, ⟨st, x, hf, hx⟩, _⟩ := recRun_is_plain_parse_of_edited_input G A w recover hfirst heof hw hk
+  obtain ⟨new, h1, ⟨st, x, hf, hx⟩, _⟩ := recRun_is_plain_parse_of_edited_input_of_keptInvisible G A w recover hfirst heof hw hk
     fuel ⟨[A.start], 0⟩ [] errs (Nat.zero_le _) h
   simp only [List.nil_append] at h1
   subst h1
@@ -372,7 +722,7 @@ example : editedToks [0, 0] 2 0 [⟨1, [[.delete], [.insert 1, .delete]]⟩, ⟨
 /-- the conclusion of `recRun_is_plain_parse_of_edited_input`, obtained from the theorem … -/
 example : plainFrom exG exA [0]
     (editedToks [0, 0] 2 0 [⟨1, [[.delete], [.insert 1, .delete]]⟩, ⟨2, [[.insert 1]]⟩]) 0 = .accepted := by
-  obtain ⟨new, h1, _, h3⟩ := recRun_is_plain_parse_of_edited_input exG exA [0, 0] exRecover exFirst_holds
+  obtain ⟨new, h1, _, h3⟩ := recRun_is_plain_parse_of_edited_input_of_keptInvisible exG exA [0, 0] exRecover exFirst_holds
     (by decide) (by decide) ex_keptInvisible 10 ⟨[0], 0⟩ [] _ (by decide) rfl
   simp only [List.nil_append] at h1
   subst h1
@@ -386,5 +736,40 @@ example : plainFrom exG exA [0] (editedToks [0, 0] 2 0 [⟨1, [[.delete], [.inse
 of the (unedited) input has its first error at token 0 -/
 example : recRun exG exA [1] (fun _ => none) 10 ⟨[0], 0⟩ [] = (false, [⟨0, []⟩]) := by rfl
 example : plainFrom exG exA [0] (editedToks [1] 1 0 [⟨0, []⟩]) 0 = .refusedAt 0 := by decide
+
+
+/-! ## Tests: a certified MERGED table that detects an error late (`Lemmas/KeptCertEx.lean`: the LALR
+automaton of `S: x A c | y A d | x B f | y B g; A: a; B: a e`, whose state after `a` is merged from
+two contexts), input `x a d` -/
+
+/-- the table passes every certificate of the certified theorems -/
+example : wholeRunCert exG2 exA2 = true := ex2_cert
+/-- late detection: `A → a` is reduced under `d` (valid after `y a` only), then `d` is refused -/
+example : feed exG2 exA2 4 FUEL [6, 2, 0] = .error [4, 2, 0] := by rfl
+/-- `KeptInvisible` is FALSE of this table (the unreduced stack shifts `e`, the reduced one refuses
+it), so the `…_of_keptInvisible` theorems say nothing here … -/
+example : ¬ KeptInvisible exG2 exA2 := ex2_not_keptInvisible
+/-- … while `KeptShiftInvisible` holds, by the certificates -/
+example : KeptShiftInvisible exG2 exA2 := (certified_table_keeps_shifts_invisible exG2 exA2 ex2_cert).2.2
+example : FirstApplies exG2 exA2 [0, 2, 4] exRecover2 := ex2_first
+example : FirstValid exG2 exA2 [0, 2, 4] 1 exRecover2 := ex2_valid
+/-- the run: one error at `d`, repaired by `insert c, delete` applied to the REDUCED stack -/
+example : recRun exG2 exA2 [0, 2, 4] exRecover2 10 ⟨[0], 0⟩ [] =
+    (true, [⟨2, [[.insert 3, .delete], [.delete, .insert 3]]⟩]) := by rfl
+example : editedToks [0, 2, 4] 3 0 [⟨2, [[.insert 3, .delete], [.delete, .insert 3]]⟩] = [0, 2, 3] := by decide
+/-- the conclusion of `recRun_is_plain_parse_of_edited_input_certified`, obtained from the theorem
+(the plain parse of `x a c` reduces `A → a` under `c`, from the UNREDUCED stack) … -/
+example : plainFrom exG2 exA2 [0]
+    (editedToks [0, 2, 4] 3 0 [⟨2, [[.insert 3, .delete], [.delete, .insert 3]]⟩]) 0 = .accepted := by
+  obtain ⟨new, h1, _, h3⟩ := recRun_is_plain_parse_of_edited_input_certified exG2 exA2 [0, 2, 4] exRecover2 ex2_cert
+    ex2_first 1 (Nat.le_refl _) ex2_valid (by decide) 10 ⟨[0], 0⟩ [] _ (by decide) (IsPath.start exA2) rfl
+  simp only [List.nil_append] at h1
+  subst h1
+  exact h3.2 (by decide)
+/-- … and by evaluation -/
+example : plainFrom exG2 exA2 [0] [0, 2, 3] 0 = .accepted := by decide
+/-- the reported error is where the plain parse of the unedited input fails (token 2, after the same
+kept reduction) -/
+example : plainFrom exG2 exA2 [0] [0, 2, 4] 0 = .refusedAt 2 := by decide
 
 end GrmVerif.C05
